@@ -261,6 +261,45 @@ def run(chk):
         nts += 1
         if built != {var}:
             chk.add(Finding("R18-typespec", "R18-typespec::%s::%s" % (kind, ",".join(sorted(built))), "%s builds A2mlTypeSpec::{%s}: a %s (also one that only refers to a named definition) must become A2mlTypeSpec::%s, otherwise IF_DATA is checked against the wrong multiplicity rules" % (fid, ", ".join(sorted(built)), kind, var), fb.where()))
+    # named compound types are registered under their own kind: parse_a2ml stores a named enum / struct / taggedstruct /
+    # taggedunion in the map that the reference form (`struct Name;`) of the same kind looks it up in
+    pb = prog.bodies.get("a2ml::parse_a2ml")
+    if pb is None:
+        chk.add(Finding("R18-typespec", "R18-typespec::anchor::parse_a2ml", "a2ml::parse_a2ml not found"))
+    else:
+        Sp = sym.Analyzer(prog, opaque=[r"a2ml::.*"]).summary(pb.id)
+        stored = set()
+        for ev in Sp.events:
+            if ev[0] == "call" and ev[3] == pb.id and re.search(r"HashMap(<.*>)?::insert$", mir.strip_generics(ev[1])) and ev[2]:
+                for t0 in ev[2][0]:
+                    m = re.search(r"\.(enums|structs|taggedstructs|taggedunions)$", sym.fmt(t0))
+                    if m:
+                        # the kind test that guards this insert
+                        # nearest enclosing test of the token kind (direct control dependences, innermost first)
+                        kinds = set()
+                        frontier, seen_b = [ev[6]], set()
+                        for _ in range(4):
+                            nxt = []
+                            for blk_ in frontier:
+                                for (sb, taken) in pb.control_deps(blk_):
+                                    if (sb, taken) in seen_b:
+                                        continue
+                                    seen_b.add((sb, taken))
+                                    g = guards.switch_desc(pb, Sp, sb, taken)
+                                    mk = re.match(r"discr\(.*\) == ((?:Enum|Struct|Taggedstruct|Taggedunion)(?:\|\w+)*)$", g)
+                                    if mk:
+                                        kinds.update(mk.group(1).split("|"))
+                                    else:
+                                        nxt.append(sb)
+                            if kinds:
+                                break
+                            frontier = nxt
+                        stored.add((m.group(1), tuple(sorted(kinds))))
+        want = {("enums", ("Enum",)), ("structs", ("Struct",)), ("taggedstructs", ("Taggedstruct",)), ("taggedunions", ("Taggedunion",))}
+        for w in sorted(want - stored):
+            nts += 1
+            chk.add(Finding("R18-typespec", "R18-typespec::register::" + w[0], "parse_a2ml does not store a named %s definition in `%s` (found: %s): a later reference to the name fails or resolves to another kind" % (w[1][0], w[0], sorted(stored)), pb.where()))
+        nts += len(want & stored)
     chk.rule("R18-typespec", "A2ML compound type parsers that build exactly their own A2mlTypeSpec variant", nts, floor=4)
     # ------------------------------------------------------------------ R18-maxlen
     from . import c06
